@@ -64,7 +64,8 @@ def make_options(cfg):
     )
     preset = LookupPreset(max_names=cfg["max_names"], max_prefixes=cfg["max_prefixes"],
                           max_datatypes=cfg["max_datatypes"])
-    return SerializerOptions(flow=make_flow(cfg), frame_size=cfg["frame_size"],
+    # an explicit flow object carries its own frame_size; options.frame_size may then say something else
+    return SerializerOptions(flow=make_flow(cfg), frame_size=cfg.get("options_frame_size") or cfg["frame_size"],
                              logical_type=cfg["logical"], params=params, lookup_preset=preset)
 
 
